@@ -5,7 +5,7 @@ ID = "C06"
 LEVEL = "exploration"
 TECHNIQUE = "reference-model monitor (R7): first stop-site on the recorded path under the current breakpoint/stepping configuration, return values, reported location and enabled-set algebra, checked after every API call; exhaustive short histories + long random ones, under ASan+UBSan"
 FLAVOURS = [("asan", "generated")]
-RULE = ("same workload as C05 (all histories of length L over an 8-call alphabet on 3 small programs with multi-site lines, breakpoints inside "
+RULE = ("same workload as C05 (all histories of length L over an 8-call alphabet on 4 small programs (7 in the thorough tier) with multi-site lines, breakpoints inside "
         "callees and loops, toggling the line one is stopped on; random 20-200-call histories on generated programs); after every call: "
         "execute() must end at the first path position that is a site of an enabled line (any site while stepping) or at HALT, executeSingle() "
         "returns true exactly then, getCurrentBreak() right after such a stop is that site's location and 'none' before start / after reset, "
@@ -42,7 +42,7 @@ def work(spec):
 
 
 def finish(merged, tier, seed):
-    return {"exhaustive": True, "exhaustive_scope": "all API histories of length %d over an 8-call alphabet on 3 small programs" % (5 if tier == "quick" else 6)}
+    return {"exhaustive": True, "exhaustive_scope": "all API histories of length %d over an 8-call alphabet on 4 small programs (7 in the thorough tier)" % (5 if tier == "quick" else 6)}
 
 
 def replay(case):
